@@ -391,6 +391,67 @@ class MemEngine(object):
                                kind="link-read-differs")
 
     # -- run -------------------------------------------------------------
+    def op_warp_read(self):
+        """A windowed read during which the 16-bit sequence counter comes
+        round to two neighbouring numbers that are still in use: the requests
+        for the second and third block are lost once or more, and when the
+        first command sent after the initial window-full arrives the counter
+        is advanced - as 65 thousand answered commands would advance it - to
+        just before those numbers.  Only on an otherwise quiet network (a
+        late datagram from 65536 commands ago cannot exist in reality)."""
+        t, w, c = self.t, self.w, self.c
+        if not c.clean() or c.n_tries < 2 or (c.policy.active and
+                                               c.policy.busy):
+            return self.op_read(direct=True)
+        B = c.buffer_size
+        xy = self.pick_chip()
+        win = 3 + t.draw(6)
+        n = (win + 6 + t.draw(8)) * B - t.draw(B)
+        addr = ARENAS[t.draw(len(ARENAS))] + 64 * B + t.draw(4)
+        data = t.bytes(64) * (n // 64 + 1)
+        self.m.chips[xy].mem.write(addr, data[:n])
+        self.shadow[xy].write(addr, data[:n], 0)
+        conn = c.mc.connections[None]
+        seen = []
+        lose = {1: 1 + t.draw(c.n_tries - 1), 2: 1 + t.draw(c.n_tries - 1)}
+        warped = [False]
+
+        def swallow(chip, r):
+            if r.cmd != 2:
+                return False
+            if r.seq not in seen:
+                seen.append(r.seq)
+            idx = seen.index(r.seq)
+            if idx in lose and lose[idx] > 0:
+                lose[idx] -= 1
+                w.fault("blackholed_request")
+                return True
+            if idx == win and not warped[0] and len(seen) > 2 and \
+                    seen[2] == (seen[1] + 1) & 0xffff:
+                warped[0] = True
+                goal = (seen[1] - 2) & 0xffff
+                for _ in range(70000):
+                    if next(conn.seq) == goal:
+                        break
+                w.probe("seq_time_warp")
+            return False
+        self.m.swallow = swallow
+        try:
+            name = "scp.read(%#x,%d,win=%d,%r) with sequence warp" % (
+                addr, n, win, xy)
+            st, val = self.run_op(name, None, conn.read, B, win, xy[0],
+                                  xy[1], 0, addr, n)
+        finally:
+            self.m.swallow = None
+        if st == "ok" and bytes(val) != data[:n]:
+            i = next((i for i in range(min(len(val), n))
+                      if val[i] != data[i]), min(len(val), n))
+            w.violate("RD", "%s returned %d bytes, first difference at "
+                      "offset %d (got %s expected %s)" % (
+                          name, len(val), i, bytes(val[i:i + 4]).hex(),
+                          data[i:i + 4].hex()),
+                      kind="read-differs", op="scp.read")
+
     def run(self):
         t = self.t
         w = self.w
@@ -434,8 +495,10 @@ class MemEngine(object):
             n_ops = t.op_count(1, 30)
             for _ in range(n_ops):
                 t.next_segment()
-                k = t.weighted([6, 6, 2, 2, 2, 1, 1, 1, 1, 1, 1])
-                if k == 0:
+                k = t.weighted([6, 6, 2, 2, 2, 1, 1, 1, 1, 1, 1, 1])
+                if k == 11:
+                    self.op_warp_read()
+                elif k == 0:
                     self.op_write()
                 elif k == 1:
                     self.op_read()
